@@ -702,6 +702,20 @@ func (s *st) dirRecv() {
 		if a := s.base(lvl, s.defScale, s.randLogSlots()); a != nil {
 			s.rotate(a, s.rots[r.N(len(s.rots))], false, "large")
 		}
+		// a receiver whose degree went 2 -> 1 -> 2: a product relinearised in place, then the accumulator of a
+		// non-relinearising MulThenAdd (the third component it grows back must start from zero)
+		ls := s.logMax
+		if acc := s.product(lvl, ls); acc != nil {
+			if r1, _ := s.relin(acc, "op0"); r1 != nil && r1.deg() == 1 {
+				x := s.base(r1.level(), s.defScale, ls)
+				y := s.fresh(r1.level(), s.defScale, ls, s.genVals(1<<ls, "unit", 1, s.cfg.CI), true)
+				if x != nil && y != nil {
+					s.pool = append(s.pool, y)
+					s.c.Count("accumulators_with_degree_history_2_1_2", 1)
+					s.mulThenAdd(false, x, &operand{kind: "ct", e: y, cls: "-"}, r1)
+				}
+			}
+		}
 	}
 }
 
